@@ -1,6 +1,7 @@
 import Driver.Util
 import Resvg.Tree.Collect
 import Resvg.Convert.FilterInputs
+import Resvg.Writer.Escape
 namespace Driver
 open Resvg.Tree Resvg.Convert
 
@@ -74,6 +75,13 @@ def handleRefs (op : String) (args : List String) : String :=
       joinSp ((convertFilter ps).map fun (ins, r) =>
         showInp.hexStr r ++ "|" ++ ",".intercalate (ins.map showInp))
     | none => "bad-op"
+  | "escattr", [q, hex] =>
+    -- q: `d` (double quotes) or `s` (single quotes); hex: UTF-8 bytes of the string
+    match optStr? ("=" ++ hex) with
+    | some (some str) =>
+      let qc := if q == "s" then '\'' else '"'
+      showInp.hexStr (String.ofList (Resvg.Writer.writeAttrValue qc str.toList))
+    | _ => "bad-op"
   | _, _ => "bad-op"
 
 end Driver
